@@ -81,6 +81,11 @@ def scanner_names(prog):
             if i["local"] and i["body"] and i["npath"].startswith("simd::") and i["npath"].split("::")[-1] in PR.SCANNER_CLASSES]
 
 
+def dead_job(job, why):
+    return {"job": job, "ok": True, "states": 0, "transitions": 0, "results": 0, "keys": 0, "subsumed": 0,
+            "budget": why, "obligations": {}, "violations": [], "unanalysable": [], "verdicts": {}, "instances": [], "sample_paths": []}
+
+
 def run_job(args):
     job, th, budget = args
     t0 = time.time()
@@ -91,15 +96,13 @@ def run_job(args):
     if budget.get("deadline"):
         secs = min(secs, budget["deadline"] - t0)
     if secs < 5:
-        out.update({"ok": True, "states": 0, "transitions": 0, "results": 0, "keys": 0, "subsumed": 0,
-                    "budget": "time allowance of the whole batch exhausted before this exploration started",
-                    "obligations": {}, "violations": [], "unanalysable": [], "verdicts": {}, "instances": [], "sample_paths": []})
-        return out
+        return dead_job(job, "time allowance of the whole batch exhausted before this exploration started")
     budget = dict(budget, seconds=secs)
     try:
         from . import explore as E, roots, spec as S, prims as PR, monitors as MON
         prog = load_prog(job["config"], job["profile"], th)
         ex = E.Explorer(prog, max_states=budget.get("states", 600000), max_seconds=budget.get("seconds", 1500))
+        ex.max_rss_kb = int(budget.get("mem_gb", 0) * 1048576) or None
         if job["kind"] == "entry":
             st, kind = roots.initial_state(ex.m, job["root"])
             st.mon = S.spec_for_root(job["root"], kind)
@@ -238,9 +241,46 @@ def run_jobs(jobs, budget=None, procs=None, use_cache=True, th=None):
         budget = dict(budget, deadline=time.time() + budget.get("total_seconds", 900))
         args = [(jobs[i], th, budget) for i in todo]
         # longest first
+        mem_gb = float(os.environ.get("VERIF_MEM_GB", "0") or 0)
+        if not mem_gb:
+            total = 64.0
+            try:
+                with open("/proc/meminfo") as fh:
+                    for line in fh:
+                        if line.startswith("MemTotal:"):
+                            total = int(line.split()[1]) / 1048576.0
+                            break
+            except Exception:
+                pass
+            mem_gb = max(1.5, 0.7 * total / max(procs, 1))
+        budget = dict(budget, mem_gb=mem_gb)
+        args = [(jobs[i], th, budget) for i in todo]
         if procs > 1:
-            with mp.get_context("fork").Pool(procs) as pool:
-                outs = pool.map(run_job, args, chunksize=1)
+            # a worker that dies (e.g. killed for memory) must not hang the batch: every unfinished
+            # exploration is then reported as out of budget (fail closed)
+            import concurrent.futures as cf
+            from concurrent.futures.process import BrokenProcessPool
+            outs = [None] * len(args)
+            ex = cf.ProcessPoolExecutor(max_workers=procs, mp_context=mp.get_context("fork"))
+            workers = []
+            try:
+                futs = [ex.submit(run_job, a) for a in args]
+                workers = list((getattr(ex, "_processes", None) or {}).values())
+                for k, fut in enumerate(futs):
+                    left = budget["deadline"] - time.time() + 120
+                    try:
+                        outs[k] = fut.result(timeout=max(left, 5))
+                    except (BrokenProcessPool, cf.TimeoutError, Exception) as e:  # noqa
+                        outs[k] = dead_job(args[k][0], "worker process lost (%s)" % type(e).__name__)
+            finally:
+                lost = any(o is not None and o.get("budget", "") and str(o["budget"]).startswith("worker process lost") for o in outs)
+                ex.shutdown(wait=not lost, cancel_futures=True)
+                if lost:
+                    for pr in workers:
+                        try:
+                            pr.kill()
+                        except Exception:
+                            pass
         else:
             outs = [run_job(a) for a in args]
         for i, o in zip(todo, outs):
